@@ -888,6 +888,8 @@ class Evaluator:
             b = Num(int(b.b))
         if isinstance(a, Num) and isinstance(b, Num):
             x, y = a.expr, b.expr
+            if x is sp.nan or y is sp.nan:
+                return BoolV(isinstance(op, ast.NotEq))     # IEEE: every ordered comparison with NaN is false
             rel = {ast.Eq: sp.Eq, ast.NotEq: sp.Ne, ast.Lt: sp.Lt, ast.LtE: sp.Le, ast.Gt: sp.Gt, ast.GtE: sp.Ge}[type(op)]
             try:
                 r = rel(x, y)
